@@ -140,8 +140,9 @@ class TransactionManager:
 
     def error_transaction(self, exc):
         self._transition_to(TransactionState.ABORTABLE_ERROR)
-        self._txn_partitions.clear()
-        self._txn_consumer_group = None
+        # Keep `_txn_partitions` / `_txn_consumer_group`: they say what the
+        # coordinator has registered for this transaction, and the abort has
+        # to end it there with an EndTxn(ABORT).
         self._pending_txn_partitions.clear()
         for _, _, fut in self._pending_txn_offsets:
             fut.set_exception(exc)
